@@ -43,7 +43,7 @@ META = dict(
           "descriptor"),
     assumptions=["float64; diagonal mass matrices (the only kind the samplers support)",
                  "accept replay relies on jax.random.bernoulli(key, p) == (jax.random.uniform(key) < p)",
-                 "statistical clauses bound the deviation from invariance (7 sigma, N = 2e4 per configuration), "
+                 "statistical clauses bound the deviation from invariance (7 sigma, N = 5e4 per configuration), "
                  "they do not establish it",
                  "the compiled code runs with XLA's default CPU pipeline; the NUTS recorder needs the io_callbacks "
                  "of one tree to arrive in program order (violations of order would show up as non-contiguity)"],
@@ -59,7 +59,7 @@ META = dict(
     max_skip_fraction=0.3,
 )
 
-N_STAT = 20000
+N_STAT = 50000
 
 
 class Skip(Exception):
@@ -605,7 +605,7 @@ def stat_case(ck, i):
         om = np.sqrt(np.linalg.eigvalsh(np.sqrt(invm)[:, None] * p["P"] * np.sqrt(invm)[None, :]).max())
     else:
         om = np.sqrt((invm / var).max()) * 1.5
-    eps = float(rng.uniform(0.7, 1.3) / om)
+    eps = float(rng.uniform(0.9, 1.4) / om)
     N = N_STAT
     desc = dict(c=c, eps=float(f"{eps:.3g}"), mass_ratio=float(f"{invm.max() / invm.min():.3g}"), N=N)
     f = get_jit(ck, "onestep", fam, c["layout"], kind=c["kind"], depth=c["depth"], bias=c["bias"],
